@@ -24,6 +24,7 @@
   part of `Memory`) are not modelled (see `WorldStats`).
 -/
 import Ark.Proofs.Stats
+import Ark.Props.C01Struct
 import Ark.Model.Ops
 
 namespace Ark.Props.C19
@@ -364,5 +365,9 @@ example :
   decide
 
 end Small
+
+
+/-- no two archetypes have the same component set (structural invariant) -/
+theorem archetype_masks_unique : type_of% @Ark.Props.C01Struct.archetype_masks_unique := @Ark.Props.C01Struct.archetype_masks_unique
 
 end Ark.Props.C19
